@@ -53,3 +53,19 @@ let () =
           | Err m -> "{\"ok\":false,\"msg\":" ^ jname m ^ "}") in
         "{\"r\":\"ok\",\"print\":" ^ printed ^ ",\"renumber\":" ^ jprogram (renumber p) ^ "}"
     | _ -> raise (Bad "script"))
+
+(* C17: the token loop of the Pygments lexer, run on the regenerated table with the real regular expressions'
+   answers as the matcher oracle: (pyg (cps...) ((rid pos len)...)) *)
+let () =
+  register "pyg" (function
+    | L [ _; L cps; L ms ] ->
+        let text = List.map (fun c -> n_of_int (as_int c)) cps in
+        let tbl : (int * int, int) Hashtbl.t = Hashtbl.create 256 in
+        List.iter (function L [ r; p; n ] -> Hashtbl.replace tbl (as_int r, as_int p) (as_int n) | _ -> raise (Bad "pyg match")) ms;
+        let matcher r p = match Hashtbl.find_opt tbl (int_of_nat r, int_of_nat p) with Some n -> Some (nat_of_int n) | None -> None in
+        let fuel = nat_of_int (List.length text + 1) in
+        (match lex pyg_table matcher fuel [ cl_of_string "root" ] text O with
+         | Some toks ->
+             "{\"r\":\"ok\",\"tokens\":" ^ jlist (fun (ty, tx) -> "[" ^ jname ty ^ "," ^ jlist (fun c -> string_of_int (int_of_n c)) tx ^ "]") toks ^ "}"
+         | None -> "{\"r\":\"fuel\"}")
+    | _ -> raise (Bad "pyg"))
